@@ -1,5 +1,6 @@
 """tr_jit: read off jit.py whether _compile_objects restores the root logger handlers when the
-compile raises (try/finally or equivalent), and the structural facts the Jit.v model relies on.
+compile raises (try/finally or equivalent), whether the ready marker is published atomically after
+its content was written, and the structural facts the Jit.v model relies on.
 Emits coq/gen/JitGen.v.  Fail-closed on shapes it does not recognise."""
 import ast
 import os
@@ -28,18 +29,47 @@ def generate():
             raise TranslationError(f"get_cached_module: expected fragment {frag!r} not found")
     co = fns["_compile_objects"]
     src = ast.unparse(co)
-    for frag in ("root_logger.handlers = [logging.StreamHandler(f)]", "ffibuilder.compile(", "open(ready_name, 'x')",
+    for frag in ("root_logger.handlers = [logging.StreamHandler(f)]", "ffibuilder.compile(",
                  "root_logger.handlers = old_handlers"):
         if frag not in src:
             raise TranslationError(f"_compile_objects: expected fragment {frag!r} not found")
+    # how does the ready marker come into being?
+    #   (a) open(ready_name, 'x') and then the log is written into it          -> atomic_marker = false
+    #   (b) the log is written to a temporary file T (with open(T, 'w') as fd: fd.write(s)) and then
+    #       os.replace(T, ready_name) publishes it; ready_name is never opened -> atomic_marker = true
+    stmts = [n for n in ast.walk(co) if isinstance(n, ast.stmt)]
+    opens_ready = [ast.unparse(c) for c in ast.walk(co) if isinstance(c, ast.Call) and ast.unparse(c.func) == "open"
+                   and c.args and ast.unparse(c.args[0]) == "ready_name"]
+    publishes = [c for c in ast.walk(co) if isinstance(c, ast.Call) and ast.unparse(c.func) in ("os.replace", "os.rename")
+                 and len(c.args) == 2 and ast.unparse(c.args[1]) == "ready_name"]
+    if opens_ready == ["open(ready_name, 'x')"] and not publishes:
+        atomic, marker_frag = False, "open(ready_name, 'x')"
+    elif not opens_ready and len(publishes) == 1 and ast.unparse(publishes[0].func) == "os.replace" and isinstance(publishes[0].args[0], ast.Name):
+        tmp = publishes[0].args[0].id
+        writes = [w for w in stmts if isinstance(w, ast.With) and len(w.items) == 1
+                  and ast.unparse(w.items[0].context_expr) == f"open({tmp}, 'w')" and w.items[0].optional_vars is not None
+                  and [ast.unparse(b) for b in w.body] == [f"{ast.unparse(w.items[0].optional_vars)}.write(s)"]]
+        if len(writes) != 1 or writes[0].lineno >= publishes[0].lineno:
+            raise TranslationError("_compile_objects: the temporary marker file is not written (once, completely) before it is published")
+        tdef = [a for a in stmts if isinstance(a, ast.Assign) and ast.unparse(a.targets[0]) == tmp]
+        if len(tdef) != 1 or "ready_name" not in ast.unparse(tdef[0].value) or ast.unparse(tdef[0].value) == "ready_name":
+            raise TranslationError("_compile_objects: temporary marker name of unrecognised shape")
+        atomic, marker_frag = True, f"os.replace({tmp}, ready_name)"
+    else:
+        raise TranslationError(f"_compile_objects: ready marker created in an unrecognised way (opens {opens_ready}, {len(publishes)} publications)")
     # is the restoration of the handlers in a finally block that covers the compile and the marker?
     restore = False
     for n in ast.walk(co):
         if isinstance(n, ast.Try) and n.finalbody:
             fin = "\n".join(ast.unparse(s) for s in n.finalbody)
             body = "\n".join(ast.unparse(s) for s in n.body)
-            if "root_logger.handlers = old_handlers" in fin and "ffibuilder.compile(" in body and "open(ready_name, 'x')" in body:
+            if "root_logger.handlers = old_handlers" in fin and "ffibuilder.compile(" in body and marker_frag in body:
                 restore = True
+    # the marker step must come after the compile
+    comp_line = [c.lineno for c in ast.walk(co) if isinstance(c, ast.Call) and ast.unparse(c.func) == "ffibuilder.compile"]
+    mark_line = [c.lineno for c in ast.walk(co) if isinstance(c, ast.Call) and ast.unparse(c) == marker_frag]
+    if len(comp_line) != 1 or len(mark_line) != 1 or mark_line[0] < comp_line[0]:
+        raise TranslationError("_compile_objects: the ready marker is not created after the compile")
     for name in ("compile_forms", "compile_expressions"):
         s = ast.unparse(fns[name])
         if "os.replace(c_filename, c_filename.with_suffix('.c.failed'))" not in s or "except Exception as e" not in s:
@@ -49,8 +79,9 @@ def generate():
     os.makedirs(common.GEN, exist_ok=True)
     open(os.path.join(common.GEN, "JitGen.v"), "w").write(
         "(* generated by harness/tr_jit.py from ffcx/codegeneration/jit.py *)\n"
-        f"Definition restore_on_fault : bool := {'true' if restore else 'false'}.\n")
-    return restore
+        f"Definition restore_on_fault : bool := {'true' if restore else 'false'}.\n"
+        f"Definition atomic_marker : bool := {'true' if atomic else 'false'}.\n")
+    return restore, atomic
 
 
 if __name__ == "__main__":
